@@ -151,7 +151,7 @@ def offlattice_part(ck, tier):
         for e in events:
             fh.write(json.dumps(e) + "\n")
     r = run_tlc("LeapTrace", workers=1, env={"TRACE_FILE": path}, timeout=300)
-    if r.error:
+    if r.error and "TraceAccepted" not in r.error:
         raise MachineryError("LeapTrace: " + r.error)
     ck.tlc(r, "offlattice_orbits")
     ck.traces += len(events)
@@ -218,26 +218,26 @@ def fd_part(ck, tier):
                 if bounded:
                     inside = bool(np.all(x >= kw["bounds"][0]) and np.all(x <= kw["bounds"][1]))
                 events.append({"ev": "Probe", "coords": [i + 1 for i in diff], "inside": inside})
-        want = g / T
+        want = g                    # the gradient of the log-density itself: the leapfrog applies the temperature
         scale = np.max(np.abs(want))
         relerr = np.max(np.abs(G - want)) / scale if np.all(np.isfinite(G)) else 1e9
         events.append({"ev": "Result", "err_ppm": int(min(relerr * 1e6, 2 ** 30)), "finite": bool(np.all(np.isfinite(G))),
                        "raised": err is not None})
         ck.case(("fd", case))
         if mode < 2 and len(ck.samples) < 5:
-            ck.sample({"part": "finite_diff", "t": t, "true_grad_over_T": want, "estimate": G})
+            ck.sample({"part": "finite_diff", "t": t, "true_grad": want, "estimate": G})
     d = scratch("c07fd_")
     path = os.path.join(d, "trace.ndjson")
     with open(path, "w") as fh:
         for e in events:
             fh.write(json.dumps(e) + "\n")
     r = run_tlc("FdTrace", workers=1, env={"TRACE_FILE": path}, timeout=300)
-    if r.error:
+    if r.error and "TraceAccepted" not in r.error:
         raise MachineryError("FdTrace: " + r.error)
     ck.tlc(r, "finite_diff_traces")
     ck.traces += n_cases
     rej = [ln for ln in r.stdout.splitlines() if "REJECTED" in ln]
-    if r.violated or rej:
+    if r.violated or rej or r.error:
         # report the first offending case
         case = None
         for e in events:
